@@ -812,7 +812,11 @@ func c15Worker(c *core.Collector, x *Ctx) {
 	// very large file
 	var special sync.WaitGroup
 	if x.Batch == 0 {
-		special.Add(3)
+		special.Add(4)
+		go func() {
+			defer special.Done()
+			c15RudeNeighbour(c, c.Seed, c.N(30, 300))
+		}()
 		go func() {
 			defer special.Done()
 			c15SlowSession(c, addrs[int(consts.ActiveSafetyJS)], consts.ActiveSafetyJS, time.Duration(c.N(12, 65))*time.Second)
